@@ -24,10 +24,11 @@ func init() {
 			"(R10) narrowing integer conversions in package container are range-tested first or named exceptions. " +
 			"(R11) PeekContainer returns no container only across a test that the (remaining) size is non-zero - negative request or bytes missing -, so a request for zero bytes yields an empty container. " +
 			"(R12) the number decoder under GetNextN8 reports the bytes it used (= C10-R1); (R13) GetMax skips exactly len(what Peek returned). " +
+			"(R14) no store to Container.compartments takes over the compartment slice of another container (appended compartments are copied into the receiver's own slice). " +
 			"NOT decided: byte-queue equivalence over arbitrary operation sequences.",
 		Rules: []ruleFn{c16R1, c16R2, c16R3, c16R4, c16R5, c16R6, c16R7, func(c *Ctx, r *Report) { unpackWidthRule(c, r, "C16-R8") }, c16R9,
 			func(c *Ctx, r *Report) { narrowingRule(c, r, "C16-R10", []string{"container"}, map[string]string{"container.(*Container).GetNextBlockAsContainer / uint64 -> int": "the callee GetAsContainer rejects negative sizes with an error (decision table C16-R3)"}) }, c16R11,
-			borrowRule(c10R1, "C10-R1", "C16-R12", 2, nil), c16R13},
+			borrowRule(c10R1, "C10-R1", "C16-R12", 2, nil), c16R13, c16R14},
 	})
 }
 
